@@ -1694,6 +1694,14 @@ func stepCandidate(r *raft, m *pb.Message) error {
 		r.becomeFollower(m.GetTerm(), m.GetFrom()) // always m.Term == r.Term
 		r.handleSnapshot(m)
 	case myVoteRespType:
+		if r.state == StatePreCandidate && !m.GetReject() && m.GetTerm() != r.Term+1 {
+			// A granted pre-vote carries the term it was requested for, which is
+			// always our term plus one. A grant with any other term answers an
+			// earlier pre-campaign of this node and must not be counted.
+			r.logger.Infof("%x [term %d] ignored a stale %s grant from %x [term %d]",
+				r.id, r.Term, m.GetType(), m.GetFrom(), m.GetTerm())
+			return nil
+		}
 		gr, rj, res := r.poll(m.GetFrom(), m.GetType(), !m.GetReject())
 		r.logger.Infof("%x has received %d %s votes and %d vote rejections", r.id, gr, m.GetType(), rj)
 		switch res {
